@@ -115,6 +115,46 @@ theorem rest_ne_of_peek {c : Cur} (h : peek c ≠ '\x00') : (adv c).rest ≠ [] 
   | [_], h => exact absurd rfl h
   | _ :: b :: r, _ => simp [adv]
 
+/-! ### `skipWhileW`, `readNum`, `advW` (GraphQL, Gremlin) -/
+
+theorem ite_ind {α : Type} (P : α → Prop) (b : Bool) (x y : α)
+    (hx : b = true → P x) (hy : b = false → P y) : P (if b = true then x else y) := by
+  cases b
+  · simpa using hy rfl
+  · simpa using hx rfl
+
+theorem skipWhileW_mono (w : Char → Nat) (p : Char → Bool) (r : List Char) (n : Nat) :
+    Mono w ⟨r, n⟩ (skipWhileW w p r n) := by
+  induction r generalizing n with
+  | nil => exact Mono.refl _ _
+  | cons ch r ih =>
+    simp only [skipWhileW]
+    exact ite_ind (Mono w ⟨ch :: r, n⟩) _ _ _
+      (fun _ => (Mono.cons w ch r n).trans (ih _)) (fun _ => Mono.refl _ _)
+
+theorem advW_mono (w : Char → Nat) (c : Cur) : Mono w c (advW w c) := by
+  obtain ⟨rest, p⟩ := c
+  cases rest with
+  | nil => exact Mono.refl _ _
+  | cons ch r => exact Mono.cons w ch r p
+
+theorem readNum_mono (w : Char → Nat) (a b : Bool) (r : List Char) (n : Nat) :
+    Mono w ⟨r, n⟩ (readNum w a b r n).2 := by
+  fun_induction readNum w a b r n with
+  | case1 a b n => exact Mono.refl _ _
+  | case2 a b ch r n _ ih => exact (Mono.cons w ch r n).trans ih
+  | case3 a b ch r n _ _ ih => exact (Mono.cons w ch r n).trans ih
+  | case4 a b ch n _ _ _ => exact Mono.cons w ch [] n
+  | case5 a b ch n _ _ _ s r' _ ih =>
+    exact ((Mono.cons w ch (s :: r') n).trans (Mono.cons w s r' _)).trans ih
+  | case6 a b ch n _ _ _ s r' _ ih => exact (Mono.cons w ch _ n).trans ih
+  | case7 a b ch r n _ _ _ => exact Mono.refl _ _
+
+theorem sumW_one (xs : List Char) : sumW (fun _ => 1) xs = xs.length := by
+  induction xs with
+  | nil => rfl
+  | cons x xs ih => simp [sumW, ih]; omega
+
 /-! ### `iter` -/
 
 theorem iter_mono {w : Char → Nat} (step : Cur → Option Cur)
